@@ -1,14 +1,30 @@
 # C04: over rationals, boxes / BD shapes / octagons are exact and best where documented.
-# One executable, three translation units (one per rational instantiation) compiled in parallel.
+# One executable, three translation units (one per rational instantiation) compiled in parallel
+# (harness/shapes.d/<name>.cc = "#define SHAPE_T ...; #include harness/shapes.cc").
 _Q = ["box_mpq", "bds_mpq", "oct_mpq"]
 HARNESSES = {
     "shapes_q": {"src": ["harness/shapes_main.cc"] + ["harness/shapes.d/%s.cc" % n for n in _Q], "variant": "prod", "flags": NOAC},
 }
+def _r(shape, args, budget):
+    return {"harness": "shapes_q", "args": ["--shape", shape, "--mode", "C04"] + args, "budget": budget}
 def _runs(tier):
     runs = []
+    if tier == "quick":
+        for n in _Q:   # every query, transformer and converting constructor on every (value class x status) of depth <= 2
+            runs.append(_r(n, ["--dim", "2", "--depth", "2", "--consts", "small"], 200))
+        for n in ("bds_mpq", "oct_mpq"):   # binary predicates in dimension 3 (disjointness needs three variables)
+            runs.append(_r(n, ["--dim", "3", "--mindim", "3", "--depth", "2", "--consts", "tiny", "--what", "binq", "--poolq-depth", "2"], 120))
+        return runs
     for n in _Q:
-        runs.append({"harness": "shapes_q", "args": ["--shape", n, "--mode", "C04", "--dim", "2", "--depth", "2"], "budget": 200})
+        runs.append(_r(n, ["--dim", "2", "--depth", "3", "--depth-ops", "2", "--consts", "small", "--poolq-depth", "2"], 900))
+        runs.append(_r(n, ["--dim", "2", "--depth", "2", "--consts", "full", "--what", "ops"], 900))
+    for n in ("bds_mpq", "oct_mpq"):
+        runs.append(_r(n, ["--dim", "3", "--mindim", "3", "--depth", "2", "--consts", "small", "--what", "binq", "--poolq-depth", "2", "--poolsigs", "1"], 900))
+        runs.append(_r(n, ["--dim", "3", "--mindim", "3", "--depth", "1", "--consts", "small"], 600))
     return runs
 CHECKS = {
-    "C04": {"runs": _runs, "level": "model_checking", "parallel_runs": 1, "deadline": {"quick": 300, "thorough": 2700}},
+    "C04": {"runs": _runs, "level": "model_checking", "parallel_runs": 2,
+            "assumptions": ["gamma(s) is read from BD_Shape::dbm / Octagonal_Shape::matrix / Box::seq and the empty flag exactly as documented in DESIGN.md appendix A (probed)",
+                            "exactness obligation for affine images/preimages is the syntactic test on (var, expr, denominator) of DESIGN.md C04; all other arguments only enclosure"],
+            "deadline": {"quick": 300, "thorough": 2700}},
 }
